@@ -368,7 +368,7 @@ func c18lane(c *Check, rng *rand.Rand, lane, edits int) {
 		return
 	}
 	omitEnable := false // the next write leaves the "enable" key out
-	extra := 0 // filler addresses (outside 127.0.0.0/8) added to the next write
+	extra := 0          // filler addresses (outside 127.0.0.0/8) added to the next write
 	forceDup := false
 	write := func(method string) {
 		ips := st.ips()
